@@ -37,6 +37,7 @@ TECHNIQUE += '; run-time names of generated rules are distinct (safe_name, RuleI
 TECHNIQUE += '; per-call state of a reused parser object: every exit of bound() restores the attributes whose per-call value is derived from their own previous value (C02.R13 = C10.R11, path-state execution)'
 TECHNIQUE += "; names declared per option of a choice in both back-ends (R9 A5); a freshly defaulted configuration is never the overriding side over the rule source's directives (R14, who-may / data-flow rule over override_config sites)"
 LEVEL_TEXT += ' Added clause: two rules never share a run-time name in generated code.'
+LEVEL_TEXT += " Added clauses (rounds 9-11): per-call configuration of a reused generated parser object ends with the call on every exit; names are declared per option of a choice as in the model; the model hands leaf primitives the operand text itself; a freshly defaulted configuration overriding the rule source's directives is a recorded known finding."
 LEVEL_NOTE = ('Trusted: repr() escapes every non-printable character; str.splitlines() breaks at \\n \\r \\v \\f \\x1c \\x1d \\x1e \\x85 '
               '\\u2028 \\u2029; str.expandtabs() rewrites TAB.')
 EXPLANATION = ('Static analysis of /repo sources, TatSu not imported. walk_* methods of PythonParserGenerator and _parse methods '
